@@ -47,6 +47,7 @@ vars == <<nd, nn, pool, nb, bf, owed, last, steps, bad>>
 NoNode == [cap |-> 0, len |-> 0, off |-> 0, mal |-> 0, refer |-> 0, unm |-> FALSE, exp |-> FALSE, origin |-> 0, next |-> 0, blk |-> 0, live |-> FALSE]
 NoBuf == [kind |-> "none", head |-> 0, read |-> 0, flush |-> 0, write |-> 0, length |-> 0, msize |-> 0, caches |-> <<>>, cp |-> [blk |-> 0, len |-> 0, cap |-> 0],
           app |-> 0,   \* readable bytes taken over by WriteBuffer and not yet submitted by Flush (contract: only writes until then)
+          apd |-> FALSE, \* a buffer was appended (WriteBuffer) and Flush has not been called since: only further writes are documented until then
           booked |-> -1] \* the poller's reservation (book) not yet acknowledged (bookAck); -1: none
 
 Init ==
@@ -135,7 +136,7 @@ Flush(b) ==
            delta == [i \in ids |-> IF S1.N[i].mal > S1.N[i].len THEN S1.N[i].mal - S1.N[i].len ELSE 0]
            tot == SeqSum(delta, ch)
            N2 == [i \in 1 .. MaxNode |-> IF i \in ids /\ delta[i] > 0 THEN [S1.N[i] EXCEPT !.len = S1.N[i].mal] ELSE S1.N[i]] IN
-       Commit([S1 EXCEPT !.N = N2], [bf EXCEPT ![b].write = w, ![b].flush = w, ![b].msize = 0, ![b].length = @ + tot, ![b].app = 0], "Flush", b, 0, 0)
+       Commit([S1 EXCEPT !.N = N2], [bf EXCEPT ![b].write = w, ![b].flush = w, ![b].msize = 0, ![b].length = @ + tot, ![b].app = 0, ![b].apd = FALSE], "Flush", b, 0, 0)
     /\ UNCHANGED owed
 
 \* MallocAck(k): keep the first k malloc'ed bytes
@@ -145,7 +146,7 @@ AckWalk(N, w, ack) ==    \* returns <<N, write>>
     IF l >= ack THEN <<[N EXCEPT ![w].mal = ack + N[w].len], w>>
     ELSE AckWalk(N, N[w].next, ack - l)
 MallocAck(b, k) ==
-    /\ WR(b) /\ k <= bf[b].msize /\ bf[b].app = 0
+    /\ WR(b) /\ k <= bf[b].msize /\ bf[b].app = 0 /\ ~bf[b].apd
     /\ LET r == AckWalk(nd, bf[b].flush, k) N1 == r[1] w == r[2]
            rest == ChainAll(N1, N1[w].next)
            ids == {rest[j] : j \in 1 .. Len(rest)}
@@ -171,7 +172,7 @@ FindOrigin(N, o, m) ==   \* returns <<origin, malloc offset inside it>>
 RECURSIVE LastOf(_, _)
 LastOf(N, a) == IF N[a].next = 0 THEN a ELSE LastOf(N, N[a].next)
 WriteDirect(n, r) ==
-    /\ WR(1) /\ Budget(2, 0) /\ r <= bf[1].msize /\ bf[1].msize > 0 /\ bf[1].app = 0
+    /\ WR(1) /\ Budget(2, 0) /\ r <= bf[1].msize /\ bf[1].msize > 0 /\ bf[1].app = 0 /\ ~bf[1].apd
     /\ (r > 0 => WithWriteDirect)
     /\ LET fo == FindOrigin(nd, bf[1].flush, bf[1].msize - r) o == fo[1] m == fo[2]
            S1 == NewNode(St, 0) dn == S1.nn
@@ -205,7 +206,7 @@ SkipWalk(N, r, ack) ==
     LET l == NLen(N, r) IN IF l >= ack THEN <<[N EXCEPT ![r].off = @ + ack], r>> ELSE SkipWalk(N, N[r].next, ack - l)
 
 Next(b, n) ==
-    /\ Alive(b) /\ bf[b].app = 0 /\ n <= bf[b].length /\ Budget(0, 1)
+    /\ Alive(b) /\ bf[b].app = 0 /\ ~bf[b].apd /\ n <= bf[b].length /\ Budget(0, 1)
     /\ LET B0 == Retire(bf[b]) r == SkipEmpty(nd, B0.read, B0.flush) IN
        IF NLen(nd, r) >= n
        THEN /\ Commit([St EXCEPT !.N = [nd EXCEPT ![r].exp = TRUE, ![r].off = @ + n]], [bf EXCEPT ![b] = [B0 EXCEPT !.read = r, !.length = @ - n]], "Next", b, n, 1)
@@ -216,7 +217,7 @@ Next(b, n) ==
             /\ owed' = owed \cup {[buf |-> b, blk |-> kb]}
 
 Peek(b, n) ==
-    /\ Alive(b) /\ bf[b].app = 0 /\ n <= bf[b].length /\ Budget(0, 1)
+    /\ Alive(b) /\ bf[b].app = 0 /\ ~bf[b].apd /\ n <= bf[b].length /\ Budget(0, 1)
     /\ LET B0 == bf[b] r == SkipEmpty(nd, B0.read, B0.flush) IN
        IF NLen(nd, r) >= n
        THEN /\ Commit([St EXCEPT !.N = [nd EXCEPT ![r].exp = TRUE]], [bf EXCEPT ![b].read = r], "Peek", b, n, 1)
@@ -230,13 +231,13 @@ Peek(b, n) ==
             /\ owed' = owed \cup {[buf |-> b, blk |-> kb]}
 
 Skip(b, n) ==
-    /\ Alive(b) /\ bf[b].app = 0 /\ n <= bf[b].length
+    /\ Alive(b) /\ bf[b].app = 0 /\ ~bf[b].apd /\ n <= bf[b].length
     /\ LET B0 == Retire(bf[b]) sw == SkipWalk(nd, B0.read, n) IN
        Commit([St EXCEPT !.N = sw[1]], [bf EXCEPT ![b] = [B0 EXCEPT !.read = sw[2], !.length = @ - n]], "Skip", b, n, 0)
     /\ UNCHANGED owed
 
 ReadBinary(b, n) ==
-    /\ Alive(b) /\ bf[b].app = 0 /\ n <= bf[b].length
+    /\ Alive(b) /\ bf[b].app = 0 /\ ~bf[b].apd /\ n <= bf[b].length
     /\ LET B0 == Retire(bf[b]) r == SkipEmpty(nd, B0.read, B0.flush) cr == Consume(nd, r, n) IN
        Commit([St EXCEPT !.N = cr[1]], [bf EXCEPT ![b] = [B0 EXCEPT !.read = cr[2], !.length = @ - n]], "ReadBinary", b, n, 0)
     /\ UNCHANGED owed
@@ -256,7 +257,7 @@ DoRelease(S, B) ==
     <<S3, [B EXCEPT !.read = r, !.head = rh[2], !.caches = <<>>, !.cp = [blk |-> 0, len |-> 0, cap |-> 0]]>>
 
 Release(b) ==
-    /\ Alive(b) /\ bf[b].app = 0
+    /\ Alive(b) /\ bf[b].app = 0 /\ ~bf[b].apd
     /\ LET dr == DoRelease(St, bf[b]) IN Commit(dr[1], [bf EXCEPT ![b] = dr[2]], "Release", b, 0, 0)
     /\ owed' = {o \in owed : o.buf # b}
 
@@ -279,7 +280,7 @@ SliceWalk(S, r, ack, tail) ==
 
 FreeBuf == CHOOSE i \in 1 .. MaxBuf : bf[i].kind = "none" /\ \A j \in 1 .. MaxBuf : bf[j].kind = "none" => i <= j
 Slice(b, n) ==
-    /\ Alive(b) /\ bf[b].app = 0 /\ n <= bf[b].length /\ \E i \in 1 .. MaxBuf : bf[i].kind = "none"
+    /\ Alive(b) /\ bf[b].app = 0 /\ ~bf[b].apd /\ n <= bf[b].length /\ \E i \in 1 .. MaxBuf : bf[i].kind = "none"
     /\ Budget(3, 0)
     /\ LET p == FreeBuf B0 == Retire(bf[b]) r == SkipEmpty(nd, B0.read, B0.flush) IN
        IF NLen(nd, r) >= n
@@ -328,7 +329,7 @@ WriteBuffer(b, d) ==
            S2 == RelChain(S1, S1.N[D.write].next)
            cut == D.length > 0 \/ ~Dev_AppendKeepsTail
            S3 == IF cut THEN [S2 EXCEPT !.N = [S2.N EXCEPT ![D.write].next = 0]] ELSE S2 IN
-       Commit(S3, [bf EXCEPT ![b] = [@ EXCEPT !.write = D.write, !.length = @ + D.length, !.msize = @ + D.msize, !.app = @ + D.length],
+       Commit(S3, [bf EXCEPT ![b] = [@ EXCEPT !.write = D.write, !.length = @ + D.length, !.msize = @ + D.msize, !.app = @ + D.length, !.apd = TRUE],
                              ![d] = [NoBuf EXCEPT !.kind = "closed"]], "WriteBuffer", b, 0, d)
     /\ UNCHANGED owed
 
@@ -337,7 +338,7 @@ WriteBuffer(b, d) ==
 \* between the two.
 Min(a, c) == IF a < c THEN a ELSE c
 Book(b, bs, ms) ==
-    /\ WithBook /\ WR(b) /\ bf[b].msize = 0 /\ bf[b].app = 0 /\ Budget(1, 1)
+    /\ WithBook /\ WR(b) /\ bf[b].msize = 0 /\ bf[b].app = 0 /\ ~bf[b].apd /\ Budget(1, 1)
     /\ LET w0 == bf[b].write
            full == nd[w0].cap - nd[w0].mal = 0
            S1 == IF full THEN (LET T == NewNode(St, ms) IN [T EXCEPT !.N = [T.N EXCEPT ![w0].next = T.nn]]) ELSE St
